@@ -51,19 +51,21 @@ def subgraph (g : G) (ns es : List Nat) : G :=
       { ed with src := rn ed.src, dst := rn ed.dst }).toArray,
     elist := List.range edgeOrder.length }
 
+/-- the loop `for _, n := range g.Nodes { if !visited[n] { walkDfs(n) … } }` of `connected.Components` -/
+def componentsLoop (g : G) : List Nat → List Nat → List G → M (List G)
+  | [], _, out => pure out
+  | n :: rest, visited, out =>
+    if visited.contains n then componentsLoop g rest visited out
+    else do
+      let (ns, es) ← walkDfs g n
+      componentsLoop g rest (visited ++ ns) (out ++ [subgraph g ns es])
+
 /-- `connected.Components` -/
 def components (g : G) : M (List G) := do
   if g.nodes.size == 0 then throw "panic:autog: node set is empty"
   let (vn, ve) ← walkDfs g 0
   if vn.length == g.nodes.size then return [g]
-  let mut out := [subgraph g vn ve]
-  let mut visited := vn
-  for n in g.nodeIds do
-    if !visited.contains n then
-      let (ns, es) ← walkDfs g n
-      out := out ++ [subgraph g ns es]
-      visited := visited ++ ns
-  pure out
+  componentsLoop g g.nodeIds vn [subgraph g vn ve]
 
 /-- `IgnoreSelfLoops`: strips e.From == e.To; returns the nodes carrying the stripped loops, in edge order -/
 def ignoreSelfLoops (g : G) : G × List Nat :=
